@@ -83,7 +83,7 @@ REACH = 1e-9             # prefix probability below which a path is "never taken
 NDRAW = 20000            # real draws of the statistical fallback
 FAMS = ['generic', 'generic', 'rank1', 'overrank', 'deficient', 'mode1',
     'int', 'd2', 'decay', 'scaled', 'zero', 'zero', 'peaked', 'kron2',
-    'unsert-null', 'zero-scaled', 'signgauge', 'signgauge']
+    'unsert-null', 'zero-scaled', 'signgauge', 'signgauge', 'narrowint']
 
 
 # ---- cases ------------------------------------------------------------------------
@@ -437,6 +437,14 @@ def audit(ctx, name, sampler, Yt, R, paths, u, inner_seed, kw, note):
     except Exception as ex:
         return f'sampler raised under the scripted generator: ' \
             f'{type(ex).__name__}: {ex}'
+    if g.bad == 'weighted draw without replacement':
+        # not a protocol deviation but a wrong law: the rows of one call are
+        # independent draws; without replacement neither the joint nor the
+        # marginal distribution of a row is proportional to the entries
+        ctx.viol(f'{name}-audit', f'{name}: several indices are drawn from '
+            f'one probability vector WITHOUT replacement ({note})', n=n,
+            samples=len(paths))
+        return 'violated'
     why = g.why_inconclusive(res)
     if why:
         return why
@@ -576,6 +584,8 @@ def build(rng, family, max_entries=300, rmax=4):
         'unsert-null': 'generic', 'zero-scaled': 'generic'}.get(family, family)
     if family == 'signgauge':
         base = ['generic', 'rank1', 'd2', 'generic'][int(rng.integers(4))]
+    if family == 'narrowint':
+        base = 'generic'
     rmax = 3 if family == 'kron2' else rmax
     nmin = 1
     for _ in range(50):
@@ -603,6 +613,16 @@ def build(rng, family, max_entries=300, rmax=4):
         Ypos = kron_square(Y0)
     else:
         Ypos = [np.abs(G) for G in Y0]
+    if family == 'narrowint':
+        # count tensors stored in a narrow integer dtype; sums over a mode
+        # exceed the range of that dtype (marginals must be formed in double)
+        dt, hi = [(np.int8, 61), (np.uint8, 121), (np.int16, 9001)][
+            int(rng.integers(3))]
+        Ypos = [rng.integers(0, hi, size=G.shape).astype(dt) for G in Ypos]
+        for G in Ypos:
+            if not np.any(G):
+                G.flat[0] = 1
+        flags['dtype'] = np.dtype(dt).name
     if family == 'signgauge':
         # the same non-negative tensor in another gauge: G_k S, S G_{k+1} with
         # a random sign matrix S at every bond (exact in floating point), and
@@ -768,6 +788,17 @@ def run_dist(case, ctx, teneva):
         status.append(audit(ctx, 'square', teneva.sample_square, Y0, RQ,
             paths2, 0., s_int, {'unique': False},
             f'm = {m2} random paths, unique=False'))
+        # a handful of samples (2 .. first mode size, often with repeated
+        # first indices in the script): every row is an independent draw
+        if n[0] >= 2:
+            m3 = int(rng.integers(2, n[0] + 1))
+            p3 = idx[rng.integers(0, N, size=m3)]
+            if rng.random() < 0.6:
+                p3[:, 0] = p3[0, 0]
+            status.append(audit(ctx, 'square', teneva.sample_square, Y0, RQ,
+                p3, 0., s_int, {'unique': False},
+                f'm = {m3} <= first mode size, unique=False'))
+            ctx.event('square-audit-few-samples')
         incon = [s for s in status if s not in ('ok', 'violated')]
         run_fb = case['fallback'] or bool(incon)
         if incon:
